@@ -10,11 +10,12 @@
     of the top level) shows that whenever a run from the initial state stands at a position outside every block and loop,
     the control stacks ARE neutral and the free lists duplicate free -- whatever conditionals, returns, breaks, finished
     loops and collections came before; C19_fragments_compose_from_the_start (Proofs/Fragments.v) chains the two: observe
-    the run of P1;P2 at the first statement of P2, and from there it is indistinguishable from P2 alone.  Left to the
-    compose stream: that P1 binds none of P2's names when their texts share none (a scope-key invariant not proved), and
-    that the run of P1;P2 reaches the first statement of P2 exactly when P1 alone ends normally. *)
+    the run of P1;P2 at the first statement of P2, and from there it is indistinguishable from P2 alone.
+    C19_fragments_compose_when_they_share_no_names (at the end of this file; PrefixRun.v, FragmentsAlone.v, KeysOK.v) is
+    the property with its own hypothesis: P1 alone terminates normally, P2 mentions none of the names P1 declares -- then
+    P1;P2 passes through P1's final machine on P2's first statement and ends like P2 alone. *)
 From Pakhi Require Import Base Float64 Syntax Tables Lexer Interp.
-From Pakhi.Proofs Require Import Scope Control GCMark GCSweep WF WFOps Frames FrameInv Sim2Defs Sim2 Compose TopLevel Fragments PrefixRun FragmentsAlone.
+From Pakhi.Proofs Require Import Scope Control GCMark GCSweep WF WFOps Frames FrameInv Sim2Defs Sim2 Compose TopLevel Fragments PrefixRun FragmentsAlone KeysOK.
 Local Open Scope nat_scope.
 
 Theorem C19_control_state_is_neutral_between_fragments : forall code, code_ok code -> forall platform w fuel sched, code <> [] ->
@@ -136,3 +137,38 @@ Theorem C19_fragments_compose_after_p1_alone : forall c1 c2 pe pi (N : text -> P
                             (fst (run c2 fuel schedB 0 (init_machine platform (m_world m1)))).
 Proof. exact compose_after_p1_alone. Qed.
 Print Assumptions C19_fragments_compose_after_p1_alone.
+
+(* THE PROPERTY WITH ITS OWN HYPOTHESIS: "P1 terminates normally and P1 and P2 share no names".  D: the names P1 declares
+   (variables, functions); P2 mentions names of N only; N and D are disjoint; P1 does not touch the platform constant.
+   Then P1;P2 passes through the machine P1 alone ends in, positioned on P2's first statement, and from there ends like P2
+   alone: same output after P1's, same final world, same result, errors of the same kind at the shifted position. *)
+Theorem C19_fragments_compose_when_they_share_no_names : forall (c1 c2 : list fstmt) pe pi (N D : text -> Prop) platform w fuel1 sched1 m1 mlast s0 r2,
+  let P1 := code1 c1 pe in
+  let P12 := codeA c1 (map (smap idn pi) c2) in
+  map (smap idn pi) c2 = s0 :: r2 -> (forall p, s0 <> FElse p) -> Forall (fun s => is_eos s = false) c1 ->
+  code_ok P1 -> code_ok P12 -> code_ok c2 -> c2 <> [] ->
+  run P1 fuel1 sched1 0 (init_machine platform w) = (Ok m1, mlast) ->
+  closed_at P1 (length c1) ->
+  (forall pc y yp idx init p, stmt_at P1 pc = Some (FAssign AFirst y yp idx init p) -> D y) ->
+  (forall pc q f fp args ap sp, stmt_at P1 pc = Some (FFuncDef q) -> stmt_at P1 (S pc) = Some (FExpr (ECall (EVar f fp) args ap) sp) -> D f) ->
+  ~ D platform_const ->
+  (forall pc y yp idx init p, stmt_at P1 pc = Some (FAssign AReassign y yp idx init p) -> y <> platform_const) ->
+  (forall pc s, stmt_at c2 pc = Some s -> Forall N (snames s)) ->
+  (forall x, N x -> ~ D x) ->
+  (exists j, j <= fuel1 /\ run P12 fuel1 sched1 0 (init_machine platform w) = run P12 (fuel1 - j) sched1 j m1) /\
+  m_pc m1 = length c1 /\
+  forall fuel schedA schedB bA,
+    same_end2 pi (m_out m1) (fst (run P12 fuel schedA bA m1)) (fst (run c2 fuel schedB 0 (init_machine platform (m_world m1)))).
+Proof. exact fragments_compose_when_names_are_disjoint. Qed.
+Print Assumptions C19_fragments_compose_when_they_share_no_names.
+
+(* on the way: at every statement boundary of every run, every bound name is a declared name of the program *)
+Theorem C19_bound_names_are_declared_names : forall code, code_ok code -> forall platform (D : text -> Prop),
+  (forall pc y yp idx init p, stmt_at code pc = Some (FAssign AFirst y yp idx init p) -> D y) ->
+  (forall pc q f fp args ap sp, stmt_at code pc = Some (FFuncDef q) -> stmt_at code (S pc) = Some (FExpr (ECall (EVar f fp) args ap) sp) -> D f) ->
+  ~ D platform_const ->
+  (forall pc y yp idx init p, stmt_at code pc = Some (FAssign AReassign y yp idx init p) -> y <> platform_const) ->
+  forall w fuel sched, code <> [] ->
+  let m := snd (run code fuel sched 0 (init_machine platform w)) in K1 D m /\ K2 platform m.
+Proof. exact bound_names_are_declared_names. Qed.
+Print Assumptions C19_bound_names_are_declared_names.
